@@ -5,6 +5,7 @@ import (
 	"cmp"
 	"encoding/json"
 	"fmt"
+	"maps"
 	"slices"
 	"sort"
 	"strings"
@@ -266,8 +267,10 @@ func addGroup(g *nsxGroup) []change {
 
 func findGroupOnDevice(gb *nsxGroup, ma map[string]*nsxGroup) *nsxGroup {
 	bAddr := gb.Expression[0].IPAddresses
+	// Take first found group in sorted order for deterministic result.
 GROUP:
-	for _, ga := range ma {
+	for _, aName := range slices.Sorted(maps.Keys(ma)) {
+		ga := ma[aName]
 		aAddr := ga.Expression[0].IPAddresses
 		// Check if group already referenced by other group.
 		if ga.needed {
